@@ -82,8 +82,13 @@ def frames(ntypes, maxn, ordered):
     return out
 
 
-def grid_spec(L, dim, periodic=True):
-    return {"kind": "cart", "shape": [int(L)] * dim, "dx": [1.0] * dim, "origin": [0.0] * dim, "periodic": [periodic] * dim}
+def grid_spec(L, dim, periodic=True, origin=0.0):
+    return {"kind": "cart", "shape": [int(L)] * dim, "dx": [1.0] * dim, "origin": [float(origin)] * dim, "periodic": [periodic] * dim}
+
+
+def cfg_origin(cfg):
+    """lower bound of the periodic box: 0 for grid=True, non-zero for grid='shifted' (same period, same metric)"""
+    return -2.5 if cfg["grid"] == "shifted" else 0.0
 
 
 def configs():
@@ -92,6 +97,10 @@ def configs():
         out.append({"method": "overlap", "grid": grid})
         for md in ("inf", 1.25, 0.5, -1.0):
             out.append({"method": "distance", "grid": grid, "max_dist": md})
+    # the same periodic box with a non-zero lower bound (the period, hence the metric, is unchanged)
+    out.append({"method": "overlap", "grid": "shifted"})
+    out.append({"method": "distance", "grid": "shifted", "max_dist": "inf"})
+    out.append({"method": "distance", "grid": "shifted", "max_dist": 1.25})
     return out
 
 
@@ -196,7 +205,7 @@ def run_tracking(block, etc, L, dim):
     from droplets import DropletTrackList
 
     cfg = block["cfg"]
-    grid = geom.make_grid(grid_spec(L, dim)) if cfg["grid"] else None
+    grid = geom.make_grid(grid_spec(L, dim, origin=cfg_origin(cfg))) if cfg["grid"] else None
     kw = {}
     if cfg["method"] == "distance" and cfg["max_dist"] != "inf":
         kw["max_dist"] = cfg["max_dist"]
